@@ -30,7 +30,7 @@ while IFS= read -r f; do
   dst="${dst#./}"
   mkdir -p "$(dirname "$dst")"; cp "$f" "$dst"; placed=$((placed+1)); echo "  placed $base at $dst"
 done < <(find "$D/demo" -type f ! -name README.txt)
-cmd=$(grep -E '^\s*(go test|go run) ' "$README" | head -1 | sed -E 's/^\s*//')
+cmd=$(grep -E '^\s*(go test|go run) ' "$README" | head -1 | sed -E 's/^\s*//; s/\s{2,}[(#].*$//; s/\s+#.*$//')
 echo "demo: placed=$placed cmd=[$cmd]"
 if [ -n "$cmd" ]; then
   timeout 900 bash -c "$cmd" > "$W/demo_with.log" 2>&1; dw=$?
